@@ -523,6 +523,29 @@ impl EpochDifficultyTrend {
         }
     }
 
+    // The estimated limit is greater than the maximum of `U256`:
+    // - any total difficulty is not greater than the upper limit;
+    // - any total difficulty is less than the lower limit.
+    fn check_overflowed_limit(
+        check_max: bool,
+        actual: &U256,
+        start: &U256,
+        n: u64,
+        k: u64,
+    ) -> Result<(), String> {
+        if check_max {
+            debug!("check total difficulty: not greater than upper limit (overflowed)");
+            Ok(())
+        } else {
+            let errmsg = format!(
+                "failed since total difficulty ({actual:#x}) is less than \
+                the lower limit (overflowed) with \
+                start epoch difficulty {start:#x}, n: {n}, k: {k}"
+            );
+            Err(errmsg)
+        }
+    }
+
     // Check the limit of total difficulty.
     #[allow(clippy::too_many_arguments)]
     pub(crate) fn check_total_difficulty_limit(
@@ -546,14 +569,19 @@ impl EpochDifficultyTrend {
                     let state = "decreased";
                     for index in 0..*epochs_count {
                         curr /= tau;
-                        total = total.checked_add(&curr).unwrap_or_else(|| {
-                            panic!(
+                        total = if let Some(total) = total.checked_add(&curr) {
+                            total
+                        } else {
+                            // The limit is greater than the maximum of `U256`, so it is also
+                            // greater than the actual total difficulty.
+                            debug!(
                                 "overflow when calculate the limit of total difficulty, \
                                 total: {}, current: {}, index: {}/{}, tau: {}, \
                                 state: {}, trend: {:?}, details: {:?}",
                                 total, curr, index, epochs_count, tau, state, self, details
                             );
-                        });
+                            return Self::check_overflowed_limit(check_max, actual, start, n, k);
+                        };
                         if total >= *actual {
                             if check_max {
                                 debug!("check total difficulty: not greater than upper limit (short-circuit)");
@@ -573,14 +601,19 @@ impl EpochDifficultyTrend {
                     let state = "increased";
                     for index in 0..*epochs_count {
                         curr = curr.saturating_mul(&tau_u256);
-                        total = total.checked_add(&curr).unwrap_or_else(|| {
-                            panic!(
+                        total = if let Some(total) = total.checked_add(&curr) {
+                            total
+                        } else {
+                            // The limit is greater than the maximum of `U256`, so it is also
+                            // greater than the actual total difficulty.
+                            debug!(
                                 "overflow when calculate the limit of total difficulty, \
                                 total: {}, current: {}, index: {}/{}, tau: {}, \
                                 state: {}, trend: {:?}, details: {:?}",
                                 total, curr, index, epochs_count, tau, state, self, details
                             );
-                        });
+                            return Self::check_overflowed_limit(check_max, actual, start, n, k);
+                        };
                         if total >= *actual {
                             if check_max {
                                 debug!("check total difficulty: not greater than upper limit (short-circuit)");
@@ -598,8 +631,13 @@ impl EpochDifficultyTrend {
                 }
             }
         }
+        let total_with_unaligned = if let Some(sum) = total.checked_add(unaligned) {
+            sum
+        } else {
+            return Self::check_overflowed_limit(check_max, actual, start, n, k);
+        };
         if check_max {
-            if &total + unaligned >= *actual {
+            if total_with_unaligned >= *actual {
                 debug!("check total difficulty: not greater than upper limit (fully-calculated)");
                 Ok(())
             } else {
@@ -609,7 +647,7 @@ impl EpochDifficultyTrend {
                 );
                 Err(errmsg)
             }
-        } else if &total + unaligned <= *actual {
+        } else if total_with_unaligned <= *actual {
             debug!("check total difficulty: not less than lower limit (fully-calculated)");
             Ok(())
         } else {
